@@ -90,6 +90,7 @@ def spec_single(case, struct=None):
             dis=[bool(cyc(v['dis'][1], t)) if v['dis'] else False for t in range(T)],
             h={i: Fraction(v['h'])}, p={i: Fraction(v['p'])}, ith={i: (None if v['ith'] is None else Fraction(v['ith']))},
             rev={i: Fraction(v['rev'])}, cap={i: (Fraction(v['cap']) if v['cap'] else None)}, pol={i: v['pol']},
+            hf={i: v.get('hf')}, pf={i: v.get('pf')},
             rmh={r: (Fraction(nd[r]['h']) if r != 'x' else Z) for r in sup}, rmh_sup={r: (r if r != 'x' else None) for r in sup},
             demand={i: ([Fraction(cyc(v['demand'], t)) for t in range(T)] if v['demand'] is not None else None)},
             init_il={i: il0}, init_orders=Fraction(v['init_orders']), init_ships=Fraction(v['init_ships']))
@@ -408,6 +409,58 @@ def mon_c04(spec, G, tol=None, cover=None):
     return bad
 
 
+def mon_c04_multi(spec, G, tol=None):
+    """multi-product nodes: the products of a node order one after the other (in the node's product order); product k observes
+    IL_k + min over its raw materials r of max(0, RM_r + sum_p (on-order + held at door) - units earmarked for the pending
+    finished goods of the node's OTHER products) / NBOM(k, r), minus this period's demand for k.  The raw-material orders of the
+    node then add up, per (supplier, raw material), to NBOM x the finished-goods orders, go to the first supplier of the raw
+    material, and are what that supplier receives one order lead time later."""
+    bad = Bad(); I = init_record(spec); T = len(G); N = spec['nodes']; tol = TOL if tol is None else tol
+    for n, s in N.items():
+        for t in range(T):
+            g = G[t][n]; prev = (G[t - 1] if t > 0 else I)[n]
+            oqs = {(p, r): g['supp'][(p, r)]['OQ'] for r, ps in s['sup'].items() for p in ps}
+            if dis_at(spec, n, t, 'OP'):
+                if any(abs(g['prod'][k]['OQFG']) > tol for k in s['products']) or any(abs(v) > tol for v in oqs.values()):
+                    bad.add('orders-while-order-paused', 'node %s period %d: order-pausing disruption active but order_quantity_fg = %s, order quantities %s'
+                            % (n, t, {k: fq(g['prod'][k]['OQFG']) for k in s['products']}, {str(a): fq(b) for a, b in oqs.items()}))
+                continue
+            placed = {pr: Z for pr in oqs}
+            pfg = {k: (prev['prod'][k].get('PFG', Z)) for k in s['products']}
+            for k in s['products']:
+                dem = sum((g['cust'][(c, k)]['IO'] for c in s['custs'][k]), Z)
+                units = []
+                for r, num in s['bom'][k].items():
+                    pl = prev['RM'][r] + sum((prev['supp'][(p, r)]['OO'] + placed[(p, r)] + prev['supp'][(p, r)]['IDI'] for p in s['sup'][r]), Z)
+                    for k2 in s['products']:       # clamped product by product, as the implementation does (differs from one clamp of the sum only while some pending quantity is negative)
+                        if k2 != k: pl = pos(pl - pfg[k2] * s['bom'][k2].get(r, Z))
+                    units.append(pl / num)
+                ip = prev['prod'][k]['IL'] + min(units) - dem
+                pol = s['pol'][k]; cap = s['cap'][k]
+                alts = [rule(pol, ip)]
+                if pol[0] in ('sS', 'rQ') and abs(ip - pol[1]) <= 10 ** 6 * tol:      # a rounding error of the implementation may fall on either side
+                    alts = [rule(pol, ip), rule(pol, Fraction(pol[1])), Z]
+                alts = [a if cap is None else min(a, cap) for a in alts]
+                got = g['prod'][k]['OQFG']
+                if not any(_eq(got, a, 10 ** 3 * tol) for a in alts):
+                    bad.add('order-not-policy|' + pol[0], 'node %s product %s period %d: policy %s, capacity %s, inventory position %s (previous state, orders already placed this period by the node\'s '
+                            'earlier products, minus demand %s): rule gives %s but order_quantity_fg = %s' % (n, k, t, pol, cap, fq(ip), fq(dem), fq(alts[0]), fq(got)))
+                pfg[k] += got
+                for r, num in s['bom'][k].items():
+                    placed[(s['sup'][r][0], r)] += num * got
+            for pr, want in placed.items():
+                if not _eq(oqs[pr], want, 10 ** 3 * tol):
+                    bad.add('raw-material-orders', 'node %s period %d: order to supplier %s for raw material %s is %s but NBOM x finished-goods orders of the products using it = %s'
+                            % (n, t, pr[0], pr[1], fq(oqs[pr]), fq(want)))
+            for (p, r), q in oqs.items():
+                if p is not None and t + s['olt'] < T:
+                    io = G[t + s['olt']][p]['cust'][(n, r)]['IO']
+                    if not _eq(io, q, 10 ** 3 * tol):
+                        bad.add('raw-material-orders-received', 'node %s orders %s of raw material %s from %s in period %d (order lead time %d) but the supplier\'s inbound order in period %d is %s'
+                                % (n, fq(q), r, p, t, s['olt'], t + s['olt'], fq(io)))
+    return bad
+
+
 # ------------------------------------------------------------------------------------------------
 # C05 costs
 
@@ -416,8 +469,10 @@ def cost_spec(spec, G, t, n):
     hc = sc = it = Z
     for k in s['products']:
         il = g['prod'][k]['IL']
-        hc += s['h'][k] * (pos(il) + sum((g['cust'][(c, k)]['ODI'] for c in s['custs'][k]), Z))
-        sc += s['p'][k] * neg(il)
+        held = pos(il) + sum((g['cust'][(c, k)]['ODI'] for c in s['custs'][k]), Z)
+        hf = s.get('hf', {}).get(k); pf = s.get('pf', {}).get(k)
+        hc += (Fraction(hf[0]) * held + Fraction(hf[1]) * held * held) if hf else s['h'][k] * held
+        sc += (Fraction(pf[0]) * neg(il) + Fraction(pf[1]) * neg(il) * neg(il)) if pf else s['p'][k] * neg(il)
         hh = s['h'][k] if s['ith'][k] is None else s['ith'][k]
         it += hh * sum((sum(G[t][c]['supp'][(n, k)]['SP'], Z) for c in s['custs'][k] if c is not None), Z)
     for r, ps in s['sup'].items():
@@ -685,7 +740,8 @@ def run_multi(case, seed=1):
         total = sim.simulation(net, T, rand_seed=seed, progress_bar=False, consistency_checks='N')
     # configuration read from the implementation: which supplier of a raw material comes first (documented as arbitrary)
     first = {n.index: {r: n.raw_material_suppliers_by_raw_material(r, return_indices=True) for r in n.raw_materials_by_product('all', return_indices=True)} for n in net.nodes}
-    return dict(net=net, total=F(total), first=first, succs={n.index: list(n.successor_indices()) for n in net.nodes})
+    return dict(net=net, total=F(total), first=first, succs={n.index: list(n.successor_indices()) for n in net.nodes},
+                prod_order={n.index: list(n.product_indices) for n in net.nodes})        # the order in which a node's products place their orders
 
 
 def spec_multi(case, impl):
@@ -696,7 +752,8 @@ def spec_multi(case, impl):
         v = nd[i]
         preds = [a for a, b in edges if b == i]; succs = list(impl['succs'][i])
         assert sorted(succs) == sorted(b for a, b in edges if a == i)
-        ks = list(v['products'])
+        ks = list(impl.get('prod_order', {}).get(i, v['products']))
+        assert sorted(ks) == sorted(v['products'])
         bom = {}; sup = {}
         def implicit(p, c):
             """no bill-of-materials relation between any product of p and any product of its successor c: the documented
@@ -842,7 +899,8 @@ def randomize(net, case, rng_spec):
 
 
 def gen_rng_spec(rng, case):
-    return dict(markov=rng.random() < 0.5, seed=rng.randint(1, 10 ** 6),
+    return dict(markov=rng.random() < 0.5, seed=(0 if rng.random() < 0.2 else rng.randint(1, 10 ** 6)),      # 0 is a valid seed
+               
                 dem={str(i): (['P', rng.choice([1, 2, 4, 6]), 0] if rng.random() < 0.5 else ['UD', 0, rng.choice([3, 6, 10])]) for i in case['ids']})
 
 
@@ -884,7 +942,7 @@ FIELDS = {'C01': ['IL', 'PFG', 'RM', 'IS', 'OS', 'IO', 'BO', 'ODI', 'IDI', 'OP',
           'C04': ['OQFG', 'OQ', 'IO'],
           'C05': ['HC', 'SC', 'ITHC', 'REV', 'TC', 'TOTAL'],
           'C06': None}
-MULTI_PROPS = ('C01', 'C02', 'C03', 'C05')
+MULTI_PROPS = ('C01', 'C02', 'C03', 'C04', 'C05')
 NEG_INIT_SIG = 'simulation|negative-initial-inventory-level'
 SPECIFIC = {'C01': ['SP-new-held-items', 'RP-items-held-at-door', 'held-items-released', 'RP-held-items-received'],
             'C02': ['SP-successor-with-backorders', 'backorders-cleared', 'short-with-several-customers'],
@@ -897,9 +955,11 @@ RULES = {
     'C02': 'as C01 plus a 4%% malformed stream with a negative initial inventory level (known finding %s)' % NEG_INIT_SIG,
     'C03': 'order lead times up to 3, 60% of the configured disruptions turned into transit-/receipt-pausing ones',
     'C04': 'policies BS/sS/rQ/FQ/EBS (EBS only where the echelon average is exact in binary64), capacity 30%, order-pausing disruptions; plus pure policy-function '
-           'cases (random parameters, positions incl. the reorder point itself, capacities) and serial EBS-vs-converted-BS systems (2-6 stages, SLT 0-3, OLT 0, random demand)',
-    'C05': 'holding/stockout rates k/4, in-transit rate None/0/positive, revenue 30%; plus run_multiple_trials re-derived trial by trial with the same seeds (Poisson / uniform demand)',
-    'C06': 'default mix; every case also run period by period (initialize/step/close), relabelled (fresh case and reindex_nodes), and with random demand / Markov disruptions '
+           'cases (random parameters, positions incl. the reorder point itself, capacities) and serial EBS-vs-converted-BS systems (1-6 stages, SLT 0-3, OLT 0, random demand, node ids incl. 0, '
+           'edges given in shuffled order so that network.nodes is not listed upstream-to-downstream); multi-product stream: per-product position with units earmarked for the other products, '
+           'orders per (supplier, raw material) = NBOM x finished-goods orders, and the supplier receives them one order lead time later',
+    'C05': 'holding/stockout rates k/4, in-transit rate None/0/positive, revenue 30%; 30% of the cases carry optional holding / stockout cost functions (a x + b x^2, not clamped; monitors only) and a shipment-pausing disruption; plus run_multiple_trials re-derived trial by trial with the same seeds (Poisson / uniform demand)',
+    'C06': 'default mix (25% of the networks contain node index 0); relabellings onto 100..199 or onto 0..n; rand_seed 0 in 20% of the random-demand runs; every case also run period by period (initialize/step/close), relabelled (fresh case and reindex_nodes), and with random demand / Markov disruptions '
            '(same seed twice; realisations fed to the Coq model)'}
 
 
@@ -907,7 +967,7 @@ def monitors(pid, spec, G, total, tol=None, multi=False, cover=None):
     if pid == 'C01': return mon_c01(spec, G, tol)
     if pid == 'C02': return mon_c02(spec, G, tol)
     if pid == 'C03': return mon_c03(spec, G, tol)
-    if pid == 'C04': return mon_c04(spec, G, tol, cover=cover)
+    if pid == 'C04': return mon_c04_multi(spec, G, tol) if multi else mon_c04(spec, G, tol, cover=cover)
     if pid == 'C05': return mon_c05(spec, G, total, tol, check_rev=not multi)
     if pid == 'C06': return mon_c06(spec, G, tol)
     raise ValueError(pid)
@@ -927,10 +987,18 @@ def gen_single(pid, rng, nmax, tmax, directed=False):
     if pid == 'C04':
         for v in c['nodes'].values():
             if v['dis'] and rng.random() < 0.4: v['dis'][0] = 'OP'
+    if pid == 'C05' and rng.random() < 0.3:      # optional cost functions (they replace the rate for finished goods only; monitors only, the model has rates)
+        for v in c['nodes'].values():
+            if rng.random() < 0.5: v['hf'] = [Fraction(rng.randint(0, 12), 4), Fraction(rng.choice([0, 0, 1, 2]), 4)]
+            if rng.random() < 0.3: v['pf'] = [Fraction(rng.randint(0, 40), 4), Fraction(rng.choice([0, 0, 1, 2]), 4)]
+        if pid == 'C05' and not any(v['dis'] and v['dis'][0] == 'SP' for v in c['nodes'].values()):
+            cand = [i for i in c['ids'] if any(b == i for a, b in c['edges'])]
+            if cand and rng.random() < 0.6:
+                i = rng.choice(cand); c['nodes'][i]['dis'] = ['SP', [rng.random() < 0.4 for _ in range(rng.choice([3, 5, c['T']]))]]
     if pid == 'C02' and rng.random() < 0.04:
         i = rng.choice(c['ids']); c['nodes'][i]['init_il'] = -rng.randint(1, 6); c['malformed'] = 'negative-initial-inventory-level'
     if pid == 'C06' and not directed:
-        c['aux'] = dict(mp={str(i): k for i, k in zip(c['ids'], rng.sample(range(100, 200), len(c['ids'])))}, rs=gen_rng_spec(rng, c))
+        c['aux'] = dict(mp={str(i): k for i, k in zip(c['ids'], rng.sample((range(100, 200) if rng.random() < 0.5 else range(0, len(c['ids']) + 1)), len(c['ids'])))}, rs=gen_rng_spec(rng, c))
     return c
 
 
@@ -1034,7 +1102,7 @@ def explore(chk, pid, n, n_multi=0, do_model=True):
     for c in cases:
         impl, cov = check_single(chk, pid, c)
         results.append((c, impl, cov))
-    ok = [(c, impl, cov) for c, impl, cov in results if impl is not None]
+    ok = [(c, impl, cov) for c, impl, cov in results if impl is not None and not simlib.has_cost_fn(c)]
     models = [None] * len(ok)
     if do_model and ok and ensure_model(chk):
         try:
@@ -1065,6 +1133,7 @@ def explore(chk, pid, n, n_multi=0, do_model=True):
         for v in c['nodes'].values():
             chk.count('policy=%s' % v['pol'][0]); chk.count('disruption=%s' % (v['dis'][0] if v['dis'] else None))
             chk.count('in_transit_rate=%s' % ('None' if v['ith'] is None else '0' if v['ith'] == 0 else '>0'))
+            if pid == 'C05': chk.count('cost_functions=%s' % ('+'.join(f for f in ('hf', 'pf') if v.get(f)) or 'none'))
         for x in cov: chk.count('branch:' + x)
         nt = impl is not None and not c['malformed'] and 'BO>0' in cov and 'pipeline>0' in cov and any(x in cov for x in SPECIFIC[pid])
         chk.case(c, nt, simlib.case_key(c))
@@ -1089,7 +1158,7 @@ def explore(chk, pid, n, n_multi=0, do_model=True):
                 check_probe(chk, sig, c); chk.count('multi:probe'); chk.case(c, False)
 
 
-def run_property(chk, pid, n_quick=200, n_thorough=2500, m_quick=40, m_thorough=400, extra=None):
+def run_property(chk, pid, n_quick=200, n_thorough=2000, m_quick=40, m_thorough=400, extra=None):
     chk.rule = ('single-product networks from simlib.gen_case (1-%d nodes; single/serial/assembly/distribution/DAG; random node ids; SLT 0-3, OLT 0-2(3); demand lists '
                 'with values 0..13 at sinks and 25%% of inner nodes; policy mix; capacity 30%%; explicit initial level 50%%; initial orders/shipments; one disruption type per '
                 'node with 40%% disrupted periods; horizons to %d). %s. non-trivial = some backorder > 0 and some shipment pipeline > 0 and one of the branches %s is hit; '
